@@ -78,6 +78,11 @@ CHECKS = {
             "Random multi-process histories from directories and with texts/patterns over the quote/percent/underscore/backslash/semicolon/--/)/multi-byte alphabet incl. injection-shaped strings; interactive sessions for the leading-blank/repeat rules and for submission order under overlap.",
             "LIKE exactness only demanded for wildcard-free ASCII patterns; option-looking patterns not judged",
             "DESIGN.md 3 C18"),
+    "C17": ("exploration",
+            "runtime monitoring: alias values start with observer programs (argv reached through an alias is recorded); listings captured through the builtin's redirection and fed to a fresh shell; oracle = alias-table model over a history of operations",
+            "Random histories of define/redefine/unalias/list/show/use with names over [A-Za-z0-9_.-]+ and values with options, quoted blanks, pipes, other alias names and self reference; uses at line start, after | ; &&, in every stage of a pipeline, and as non-first word.",
+            "expected argv = shell-split alias value + remaining words",
+            "DESIGN.md 3 C17"),
 }
 
 NOT_YET = "check not built yet (work in progress); runtime monitoring is applicable and planned, see DESIGN.md section 3"
